@@ -141,6 +141,20 @@ type Blocks struct {
 	Log     *EffectLog
 	Missing map[string]bool // hashes whose fetch fails (fault injection)
 	Reads   int
+	// Peers are block stores of connected peers: a block missing locally is
+	// fetched from them and then stored locally (as bitswap does).
+	Peers []*Blocks
+}
+
+// Keys lists the hashes held locally (insertion order is not significant).
+func (b *Blocks) Keys() []string {
+	b.mu.Lock()
+	defer b.mu.Unlock()
+	var out []string
+	for k := range b.objs {
+		out = append(out, k)
+	}
+	return out
 }
 
 func NewBlocks(log *EffectLog) *Blocks {
@@ -152,6 +166,13 @@ func (b *Blocks) Has(c cid.Cid) bool {
 	defer b.mu.Unlock()
 	_, ok := b.objs[c.String()]
 	return ok
+}
+
+// PutKey stores obj under a hash string (rebuilding a disk from an effect log).
+func (b *Blocks) PutKey(k string, obj interface{}) {
+	b.mu.Lock()
+	b.objs[k] = obj
+	b.mu.Unlock()
 }
 
 // Put stores obj under c without going through IO (e.g. to rebuild a disk from an effect log).
@@ -263,9 +284,25 @@ func (io *IO) Read(ctx context.Context, ipfs coreiface.CoreAPI, c cid.Cid) (form
 	io.B.Reads++
 	obj, ok := io.B.objs[c.String()]
 	missing := io.B.Missing[c.String()]
+	peers := io.B.Peers
 	io.B.mu.Unlock()
 	if err := ctx.Err(); err != nil {
 		return nil, err
+	}
+	if !ok && !missing {
+		for _, p := range peers {
+			p.mu.Lock()
+			pobj, pok := p.objs[c.String()]
+			p.mu.Unlock()
+			if pok {
+				obj, ok = pobj, true
+				io.B.mu.Lock()
+				io.B.objs[c.String()] = pobj
+				io.B.mu.Unlock()
+				io.B.Log.add(Effect{Kind: "block", Key: c.String(), Obj: pobj})
+				break
+			}
+		}
 	}
 	if !ok || missing {
 		return nil, fmt.Errorf("block not found")
@@ -329,7 +366,34 @@ func (k *selfKey) Name() string                                   { return "self
 // NewBus returns the event bus for a harness: natively the real libp2p
 // eventbus; under the interpreter NewStubBus is substituted (the real one is
 // built on reflection and atomics).
-func NewBus() event.Bus { return eventbus.NewBus() }
+func NewBus() event.Bus { return &HookBus{Bus: eventbus.NewBus()} }
+
+// HookBus wraps an event bus so that a harness can observe every emission
+// synchronously, in the emitting goroutine, before it is delivered.
+type HookBus struct {
+	event.Bus
+	OnEmit func(evt interface{})
+}
+
+type hookEmitter struct {
+	event.Emitter
+	bus *HookBus
+}
+
+func (b *HookBus) Emitter(eventType interface{}, opts ...event.EmitterOpt) (event.Emitter, error) {
+	em, err := b.Bus.Emitter(eventType, opts...)
+	if err != nil {
+		return nil, err
+	}
+	return &hookEmitter{Emitter: em, bus: b}, nil
+}
+
+func (e *hookEmitter) Emit(evt interface{}) error {
+	if h := e.bus.OnEmit; h != nil {
+		h(evt)
+	}
+	return e.Emitter.Emit(evt)
+}
 
 type SubSettings struct {
 	Buffer int
